@@ -14,6 +14,7 @@ def srateStep (st : SR.State) (tok : List String) : Option (SR.State × String) 
       let s1 ← SR.step st .gLoadInit
       let s2 ← SR.step s1 .gEnqueue
       pure (s2, "ok")
+  | ["drop", _] => some (st, "ok")   -- a persisting track stays owned and processed after its handle is dropped
   | ["rate", r] => do let r ← nat? r; let s ← SR.step st (.aChange r); pure (s, "ok")
   | ["cb", _] => do
       let s ← SR.step st .aPickup
